@@ -36,7 +36,7 @@ MODULES = {
 
 def failing_snippet(rng, uid):
     """Returns (defs_only, failing): failing = defs_only + a statement that ends the snippet with an uncaught error."""
-    k = rng.below(13)
+    k = rng.below(N_FAIL_KINDS)
     d = "var d%d = %d;\nfn df%d(x) { return x + d%d; }\n" % (uid, uid * 3, uid, uid)
     fails = [
         'throw "top%d";' % uid,
@@ -52,8 +52,24 @@ def failing_snippet(rng, uid):
         'Fiber.yield(1);',
         'var fy%d = Fiber.new(|| { var v = Fiber.yield(1); throw v; });\nfy%d.call();\nfy%d.call("resumed");' % (uid, uid, uid),
         'fn inner%d() { try { throw "x"; } finally { undefined_name_%d; } }\ninner%d();' % (uid, uid, uid),
+        # the failure happens while a `return` is in progress (inside the finally block it entered), one and two calls deep, and in a method
+        'fn cl%d() { try { return 41; } finally { nil + 1; } }\ncl%d();' % (uid, uid),
+        'fn cl%d() { try { return [41]; } finally { var q = [1][9]; } }\nfn outer%d() { var keep = 1; return cl%d(); }\nouter%d();' % (uid, uid, uid, uid),
+        '#[constructor(new)] class CL%d { fn run(self) { try { return self; } finally { throw "in finally"; } } }\nCL%d.new().run();' % (uid, uid),
+        # ... inside a catch block, and inside a finally block reached normally
+        'fn cc%d() { try { throw "first"; } catch e { var z = nil + 1; } }\ncc%d();' % (uid, uid),
+        'fn cf%d() { try { var ok = 1; } finally { throw "from finally"; } }\ncf%d();' % (uid, uid),
+        # ... in a fiber nested many fibers deep (every one of them waiting), and in a deep call inside a nested fiber
+        'fn nest%d(n, f) { if n == 0 { return f(); } return Fiber.new(|| nest%d(n - 1, f)).call(); }\nnest%d(20, || nil + 1);' % (uid, uid, uid),
+        'fn nest%d(n, f) { if n == 0 { return f(); } return Fiber.new(|| nest%d(n - 1, f)).call(); }\nfn dd%d(n) { if n == 0 { throw "deep in fibers"; } return dd%d(n - 1); }\nnest%d(9, || dd%d(30));' % (uid, uid, uid, uid, uid, uid),
+        # ... while a class is being declared, while a for loop is running, while an import is in progress inside a function
+        'fn lp%d() { for x in [1, 2, 3] { for y in [4, 5] { if y == 5 { throw "in loops"; } } } }\nlp%d();' % (uid, uid),
+        'fn im%d() { import "badmod"; }\nim%d();' % (uid, uid),
     ]
     return d, d + fails[k] + "\n", k
+
+
+N_FAIL_KINDS = 22
 
 
 def ok_snippet(rng, uid, defined):
@@ -76,7 +92,16 @@ PROBE = ('try { print("p-try"); } finally { print("p-fin"); }\n'
          'try { throw 7; } catch e { print(e); } finally { print("p-fin2"); }\n'
          'fn pr() { try { return "p-ret"; } finally { print("p-fin3"); } }\nprint(pr());\n'
          'var pf = Fiber.new(|| { Fiber.yield("p-y"); return "p-done"; });\nprint(pf.call());\nprint(pf.call());\n'
-         'class PC { #[static] fn s() { return "p-static"; } }\nprint(PC.s());\n')
+         'class PC { #[static] fn s() { return "p-static"; } }\nprint(PC.s());\n'
+         # try statements that end normally one and two calls deep, in a method and in a fiber; a loop; resources close to their limits
+         'fn pd1() { try { print("p-d1"); } catch e { print("p-d1-failed"); } print("p-d1-after"); return "p-d1-done"; }\nprint(pd1());\n'
+         'fn pd2() { var r = pd1(); try { var q = 1; } finally { print("p-d2-fin"); } for x in [1, 2] { r = r + String.from(x); } return r; }\nprint(pd2());\n'
+         '#[constructor(new)] class PM { fn run(self) { try { return "p-m"; } finally { print("p-m-fin"); } } }\nprint(PM.new().run());\n'
+         'print(Fiber.new(|| { try { print("p-f-try"); } finally { print("p-f-fin"); } return pd1(); }).call());\n'
+         )
+# ... and resources close to their limits (40 fibers nested in one call chain, 57 call frames): only after many failed runs (these cost)
+PROBE_CAP = PROBE + ('fn pnest(n, f) { if n == 0 { return f(); } return Fiber.new(|| pnest(n - 1, f)).call(); }\nprint(pnest(40, || "p-nested"));\n'
+                     'fn prec(n) { if n == 0 { return 0; } return prec(n - 1) + 1; }\nprint(prec(55));\n')
 
 COMPILE_ERRORS = ["var = ;\n", "print(1;\n", "fn (x) {}\n", "{ var a = 1; var a = 2; }\n", "return 1;\n", "break;\n", "\"unterminated\n"]
 
@@ -153,6 +178,32 @@ def gen_history(rng):
     return a, b, kinds
 
 
+def repeated_histories():
+    """For every kind of failing snippet: the same failure 4 times and 70 times in a row on one interpreter, then the probe - something
+    left behind by EACH failed run (a counter, a stack entry, a table entry) adds up until a valid snippet trips over it."""
+    out = []
+    rng = vlib.SplitMix(7)
+    for k in range(N_FAIL_KINDS):
+        for reps in (4, 70):
+            a, b, kinds = [PROBE], [PROBE], ["probe"]
+            for i in range(reps):
+                uid = 1000 + i
+                # pick the k-th kind deterministically
+                d = f = None
+                tries = 0
+                while f is None and tries < 4000:
+                    tries += 1
+                    dd, ff, kk = failing_snippet(rng, uid)
+                    if kk == k:
+                        d, f = dd, ff
+                if f is None:
+                    break
+                a.append(f); b.append(d); kinds.append("fail%d" % k)
+            a.append(PROBE_CAP); b.append(PROBE_CAP); kinds.append("probe")
+            out.append((a, b, kinds))
+    return out
+
+
 def steps_of(snips):
     out = ["M:%s:%s" % (vlib.hx(n), vlib.hx(s)) for n, s in MODULES.items()]
     for s in snips:
@@ -194,7 +245,7 @@ def correspondence(ctx, model_ok=True):
     failures = []
     broken = ["reuse model out of date: " + p for p in prologue_matches_source()]
     n_hist = 3600 if ctx.thorough else 1500
-    hists = [gen_history(rng.fork("h%d" % i)) for i in range(n_hist)]
+    hists = [gen_history(rng.fork("h%d" % i)) for i in range(n_hist)] + repeated_histories()
     corpus = progs.corpus_dir("C15")
     kinds_seen = {}
     residue_obs = {}
